@@ -227,8 +227,8 @@ HASH_ITER_ALLOWED = {
     ('<callbacks::unspentcsvdump::UnspentCsvDump as callbacks::Callback>::on_complete', 'iter'): 'row set of the unspent dump (order unspecified by the property)',
     ('<callbacks::balances::Balances as callbacks::Callback>::on_complete', 'values'): 'grouping by address is commutative (u64 addition)',
     ('<callbacks::balances::Balances as callbacks::Callback>::on_complete', 'iter'): 'row set of the balances dump (order unspecified by the property)',
-    ('callbacks::simplestats::SimpleStats::print_transaction_types', 'into_iter'): 'order of the per-type lines varies, every figure is identical',
-    ('blockchain::parser::index::ChainIndex::new', 'into_iter'): 'max-fold per file: order-insensitive',
+    ('callbacks::simplestats::SimpleStats::print_transaction_types', 'iter'): 'order of the per-type lines varies, every figure is identical',
+    ('blockchain::parser::index::ChainIndex::new', 'iter'): 'max-fold per file: order-insensitive',
     ('blockchain::parser::index::ChainIndex::new', 'keys'): 'maximum over keys: order-insensitive',
 }
 
@@ -249,6 +249,10 @@ def rule_hashorder(ctx):
                 continue  # identity into_iter on an iterator that was counted where it was created
         if m == 'retain':
             continue  # predicate-based, order-insensitive
+        if m == 'into_iter':
+            # `for x in &map` is map.iter(), `for x in &mut map` is map.iter_mut()
+            selfty = cs.gargs[0] if cs.gargs else ''
+            m = 'iter_mut' if selfty.startswith('&mut ') else ('iter' if selfty.startswith('&') else m)
         key = (cs.body.path, m)
         seen.add(key)
         ok = key in HASH_ITER_ALLOWED
